@@ -1,0 +1,58 @@
+//go:build verif
+
+package storage
+
+import (
+	"io"
+	"net/mail"
+	"time"
+)
+
+var _ io.Reader
+var _ mail.Address
+var _ time.Time
+
+// ---------------------------------------------------------------------------------------------
+// Interface contracts of storage.Message: the getters of a message are pure (a message's identity,
+// size and header data do not change once it exists; Seen is the exception and is not declared pure).
+
+//@ iface Message.Mailbox(self Message) (r string)
+//@   pure
+//@ iface Message.ID(self Message) (r string)
+//@   pure
+//@ iface Message.Size(self Message) (r int64)
+//@   pure
+//@ iface Message.Subject(self Message) (r string)
+//@   pure
+//@ iface Message.From(self Message) (r *mail.Address)
+//@   pure
+//@ iface Message.Seen(self Message) (r bool)
+//@ iface Message.To(self Message) (r []*mail.Address)
+//@ iface Message.Date(self Message) (r time.Time)
+//@ iface Message.Source(self Message) (r io.ReadCloser, err error)
+//@   ensures err == nil ==> r != nil
+
+// ---------------------------------------------------------------------------------------------
+// Ghost call log of a Store, owned by the interface contracts below: the mailboxes and ids passed
+// to RemoveMessage, in call order.
+func ghost_nremoved(s Store) int          { panic("ghost") }
+func ghost_rmBoxes(s Store) vcSeq[string] { panic("ghost") }
+func ghost_rmIDs(s Store) vcSeq[string]   { panic("ghost") }
+
+// Exported accessors.
+func Ghost_nremoved(s Store) int          { return ghost_nremoved(s) }
+func Ghost_rmBoxAt(s Store, j int) string { return vcSeqAt(ghost_rmBoxes(s), j) }
+func Ghost_rmIDAt(s Store, j int) string  { return vcSeqAt(ghost_rmIDs(s), j) }
+
+// GetMessages returns a fresh slice of existing messages.
+//@ iface Store.GetMessages(self Store, mailbox string) (r []Message, err error)
+//@   ensures vcFresh(r) || r == nil
+//@   ensures forall k int :: { r[k] } 0 <= k && k < len(r) ==> r[k] != nil
+
+// RemoveMessage: appends (mailbox, id) to the ghost removal log.
+//@ iface Store.RemoveMessage(self Store, mailbox string, id string) (err error)
+//@   modifies ghost_nremoved(self), ghost_rmBoxes(self), ghost_rmIDs(self)
+//@   ensures ghost_nremoved(self) == old(ghost_nremoved(self)) + 1
+//@   ensures vcSeqAt(ghost_rmBoxes(self), old(ghost_nremoved(self))) == mailbox && vcSeqAt(ghost_rmIDs(self), old(ghost_nremoved(self))) == id
+//@   ensures forall j int :: { vcSeqAt(ghost_rmIDs(self), j) } j < old(ghost_nremoved(self)) ==> vcSeqAt(ghost_rmIDs(self), j) == old(vcSeqAt(ghost_rmIDs(self), j))
+//@   ensures forall j int :: { vcSeqAt(ghost_rmBoxes(self), j) } j < old(ghost_nremoved(self)) ==> vcSeqAt(ghost_rmBoxes(self), j) == old(vcSeqAt(ghost_rmBoxes(self), j))
